@@ -101,6 +101,7 @@ type runState struct {
 	samples  []json.RawMessage
 	evals    int64
 	deaths   int64
+	restarts int64
 	inconcl  []string
 	broken   []string
 }
@@ -292,6 +293,7 @@ func maxI(a, b int64) int64 {
 // runShard runs one worker to completion, restarting it after a death.
 func (rs *runState) runShard(variant string, shard, nshards int) {
 	start := int64(0)
+	recycled := 0 // restarts asked for by the worker itself (not deaths)
 	for attempt := 0; ; attempt++ {
 		base := filepath.Join(rs.work, fmt.Sprintf("%s.%d.%d", variant, shard, attempt))
 		outPath := base + ".jsonl"
@@ -348,6 +350,20 @@ func (rs *runState) runShard(variant string, shard, nshards int) {
 			rs.noteBroken(fmt.Sprintf("worker %s shard %d died before its first case (exit %d): %s", variant, shard, code, tailStr(logb, 600)))
 			return
 		}
+		if code == 67 {
+			// the worker asked for a fresh process after abandoning a runaway goroutine (violation already recorded)
+			rs.mu.Lock()
+			rs.restarts++
+			rs.counters["worker_processes_restarted_on_request"]++
+			rs.mu.Unlock()
+			if cur < start {
+				rs.noteBroken(fmt.Sprintf("worker %s shard %d asked for a restart without progress (case %d)", variant, shard, cur))
+				return
+			}
+			recycled++
+			start = cur + 1
+			continue
+		}
 		kind, site, inconclusive := classifyDeath(code, logb)
 		rs.mu.Lock()
 		rs.deaths++
@@ -366,8 +382,8 @@ func (rs *runState) runShard(variant string, shard, nshards int) {
 			rs.addViolation(&violation{Prop: rs.spec.ID, Key: key, Msg: fmt.Sprintf("child process died (%s) while executing case %d [%s]", kind, cur, tag),
 				Case: cur, Variant: variant, Tier: rs.tier, Seed: rs.seed, Detail: det})
 		}
-		if attempt > rs.spec.maxDeaths() {
-			rs.noteBroken(fmt.Sprintf("worker %s shard %d died %d times; giving up on the shard", variant, shard, attempt))
+		if attempt-recycled > rs.spec.maxDeaths() {
+			rs.noteBroken(fmt.Sprintf("worker %s shard %d died %d times; giving up on the shard", variant, shard, attempt-recycled))
 			return
 		}
 		start = cur + 1
